@@ -50,6 +50,10 @@ func contents() []content {
 		{"three lines", "a\nb\nc"},
 		{"four lines", "a\nb\nc\nd"},
 		{"words", "ab cd ef"},
+		// texts that end in a line break: the rows they take can equal the height allowed exactly
+		{"one line + LF", "ab\n"},
+		{"two lines + LF", "a\nb\n"},
+		{"words + LF", "ab cd ef\n"},
 		{"70000 columns", strings.Repeat("x", 70000)},
 		{"70000 lines", strings.Repeat("x\n", 70000)},
 	}
